@@ -9,6 +9,7 @@ import (
 	"sync"
 	"sync/atomic"
 	"testing"
+	"time"
 
 	"github.com/high-moctane/mocrelay"
 	mocsqlite "github.com/high-moctane/mocrelay/handler/sqlite"
@@ -61,6 +62,12 @@ func TestC06Query(t *testing.T) {
 		ctx := context.Background()
 		world := &gen.World{Authors: gen.Pubkeys(rapid.IntRange(2, 3).Draw(t, "nauthors"))}
 		cfg := &gen.StoreCfg{World: world, TsBase: 1000, TsSpan: 7, NoNoD: true, NoOpenRefs: true, UnicodeText: true}
+		// histories in the past, or dated ahead of the wall clock (the store accepts any created_at)
+		if rapid.IntRange(0, 3).Draw(t, "future") == 0 {
+			cfg.TsBase = time.Now().Unix() + 3600
+		}
+		// events that exist (and can be named by a deletion request) before they are inserted
+		var held []*mocrelay.Event
 		m := model.NewSQLModel()
 		var trace []batchTrace
 		var all [][]*mocrelay.Event
@@ -74,7 +81,28 @@ func TestC06Query(t *testing.T) {
 			bt := batchTrace{Events: []map[string]any{}}
 			for i := 0; i < n; i++ {
 				var e *mocrelay.Event
-				op := rapid.IntRange(0, 20).Draw(t, fmt.Sprintf("b%d.%d.op", b, i))
+				op := rapid.IntRange(0, 24).Draw(t, fmt.Sprintf("b%d.%d.op", b, i))
+				if op == 21 || op == 23 {
+					// written now, sent later
+					if len(world.Events) > 0 && rapid.Bool().Draw(t, fmt.Sprintf("b%d.%d.holdversion", b, i)) {
+						held = append(held, cfg.DrawVersion(t))
+					} else {
+						held = append(held, cfg.DrawEvent(t))
+					}
+					continue
+				}
+				if op == 22 || op == 24 {
+					if len(held) == 0 {
+						continue
+					}
+					k := rapid.IntRange(0, len(held)-1).Draw(t, fmt.Sprintf("b%d.%d.release", b, i))
+					e := held[k]
+					held = append(held[:k:k], held[k+1:]...)
+					batch = append(batch, e)
+					bt.Events = append(bt.Events, gen.Brief(e))
+					col.Label("batch:late-arrival")
+					continue
+				}
 				if op == 20 {
 					for _, be := range cfg.DrawBurst(t) {
 						batch = append(batch, be)
@@ -91,7 +119,12 @@ func TestC06Query(t *testing.T) {
 				case op < 17:
 					e = gen.CloneEvent(rapid.SampledFrom(world.Events).Draw(t, "reoffer"))
 				default:
-					e = drawTargetedKind5(t, cfg, world.Events)
+					if len(held) > 0 && rapid.Bool().Draw(t, fmt.Sprintf("b%d.%d.targetheld", b, i)) {
+						// a deletion request that arrives before the event it names
+						e = drawTargetedKind5(t, cfg, held)
+					} else {
+						e = drawTargetedKind5(t, cfg, world.Events)
+					}
 				}
 				batch = append(batch, e)
 				bt.Events = append(bt.Events, gen.Brief(e))
